@@ -31,7 +31,29 @@ def _tensor_sig(t):
 
 
 def compare(case, src, out, rec=None):
-    ss, os_ = src["subgraphs"][0], out["subgraphs"][0]
+    """every subgraph of the source (main graph, WHILE condition/body, CALL_ONCE initialisation ...) against the subgraph with the same index of the output model"""
+    if len(src["subgraphs"]) != len(out["subgraphs"]):
+        raise Violation("C11/interface/subgraph-count", "source model has %d subgraphs, output model %d" % (len(src["subgraphs"]), len(out["subgraphs"])), case)
+    if out["buffers"] and out["buffers"][0] is not None:
+        raise Violation("C11/file/buffer0", "buffer 0 of the output model is not empty", case)
+    # every constant tensor's buffer holds exactly as many bytes as its shape and element type say (a plain parser, and the runtime, rely on it)
+    for k, sg in enumerate(out["subgraphs"]):
+        for t in sg["tensors"]:
+            want = vmodel.tensor_nbytes(t) if t.get("data") is not None and t["dtype"] in vmodel.NP_DTYPES else None
+            if want is not None and len(t["data"]) != want:
+                raise Violation("C11/file/buffer-size", "subgraph %d tensor '%s' (%s %s) has a buffer of %d bytes, its shape and type need %d" % (k, t["name"], t["dtype"], t["shape"], len(t["data"]), want), case)
+    rich = 0
+    for k in range(len(src["subgraphs"])):
+        try:
+            rich += _compare_sg(case, src["subgraphs"][k], out["subgraphs"][k], rec) or 0
+        except Violation as v:
+            if k:
+                v.message = "subgraph %d (%s): %s" % (k, src["subgraphs"][k]["name"], v.message)
+            raise
+    return rich
+
+
+def _compare_sg(case, ss, os_, rec=None):
     st, ot = ss["tensors"], os_["tensors"]
     # 1 interface
     for what, a, b in (("inputs", ss["inputs"], os_["inputs"]), ("outputs", ss["outputs"], os_["outputs"])):
@@ -147,8 +169,6 @@ def compare(case, src, out, rec=None):
         opts = so["options"][1] if so["options"] and so["options"][1] else {}
         if so["custom_options"] or any(v not in (0, False, 0.0, None, [], 1) for v in opts.values()):
             n_cpu_rich += 1
-    if out["buffers"] and out["buffers"][0] is not None:
-        raise Violation("C11/file/buffer0", "buffer 0 of the output model is not empty", case)
     return n_cpu_rich
 
 
@@ -217,7 +237,7 @@ def strategy(profile):
             done = []
             for _ in range(draw(st.integers(1, 2))):
                 f = draw(st.sampled_from([corners.shape_signature, corners.dead_op, corners.output_is_input, corners.no_quant, corners.self_binary, corners.scale_only,
-                                          corners.scale_only, corners.wide_dtype, corners.custom_tail]))
+                                          corners.scale_only, corners.wide_dtype, corners.custom_tail, corners.while_tail, corners.while_tail, corners.call_once_head]))
                 r = f(spec, draw, st)
                 if r:
                     done.append(r)
